@@ -208,11 +208,14 @@ func c02Configs() []c02Config {
 	var out []c02Config
 	for _, utf8 := range []bool{false, true} {
 		for _, lp := range []bool{false, true} {
-			for _, base := range []string{"rev1", "rev1ext", "rev1rev2", "rev2"} {
+			for _, base := range []string{"rev1", "rev1uidplus", "rev1ext", "rev1rev2", "rev2"} {
 				var caps []imap.Cap
 				switch base {
 				case "rev1":
 					caps = []imap.Cap{imap.CapIMAP4rev1}
+				case "rev1uidplus":
+					// UIDPLUS without MOVE: Client.Move falls back to COPY + STORE + UID EXPUNGE
+					caps = []imap.Cap{imap.CapIMAP4rev1, imap.CapUIDPlus}
 				case "rev1ext":
 					caps = append([]imap.Cap{imap.CapIMAP4rev1}, ext...)
 				case "rev1rev2":
